@@ -232,6 +232,13 @@ def gen_device(tier: str) -> Iterator[dict]:
                            'lcd.animate("bounce", 1, "ab", speed_ms=100, loop=True)', 'aux.animate("typewriter", 0, "hello", speed_ms=100, loop=False)'], ['mon.write("u")'], prologue=PRO)
     yield {"id": "A2:two-displays", "space": "A", "src": two_d, "runs": [{"passes": len(s), "adv": s, "t0": 0} for s in schedules(24, 100, 1, False)],
            "anims": [{"style": "bounce", "len": 2, "loop": True, "speed": 100, "row": 1}, {"style": "typewriter", "len": 5, "loop": False, "speed": 100, "row": 0}], "geom": [8, 2], "lcds": 2}
+    # animations started inside the loop body (once) and inside a helper
+    late = common.script(["lcd = LCD(i2c_addr=39, cols=6, rows=2)", 'lcd.line(1, "ZZZZZZ")', "n = 0"], ["n += 1", "if n == 2:", '    lcd.animate("scroll", 0, "abcd", speed_ms=100, loop=True)', "mon.write(n)"], prologue=PRO)
+    yield {"id": "AL:loop-started", "space": "A", "src": late, "runs": [{"passes": len(s), "adv": s, "t0": 0} for s in schedules(14, 100, 1, False)],
+           "anims": [{"style": "scroll", "len": 4, "loop": True, "speed": 100, "row": 0}], "geom": [6, 2], "lcds": 1, "starts_at_pass": 1}
+    helper = common.script(["lcd = LCD(i2c_addr=39, cols=6, rows=2)", 'lcd.line(1, "ZZZZZZ")', "def go():", '    lcd.animate("blink", 0, "ab", speed_ms=100, loop=True)', "go()"], ['mon.write("u")'], prologue=PRO)
+    yield {"id": "AL:helper-started", "space": "A", "src": helper, "runs": [{"passes": len(s), "adv": s, "t0": 0} for s in schedules(12, 100, 1, False)],
+           "anims": [{"style": "blink", "len": 2, "loop": True, "speed": 100, "row": 0}], "geom": [6, 2], "lcds": 1}
     for style in STYLES:
         cont = anim_script(style, "abcdef", 4, 2, True, 100, extra=["n = 0"], body=["n += 1", "if n % 2 == 0:", "    continue", "mon.write(n)"])
         yield {"id": f"AC:{style}:continue", "space": "A", "src": cont, "runs": [{"passes": len(s), "adv": s, "t0": 0} for s in schedules(16, 100, 1, False)],
@@ -267,6 +274,8 @@ def device_monitor(case, run, dr) -> Optional[str]:
     for p in range(run["passes"]):
         clock += run["adv"][p]
         evs = by_phase.get(p, [])
+        if p <= case.get("starts_at_pass", -1):
+            continue
         ticks = [i for i, ev in enumerate(evs) if ev.kind == "millis"]
         if len(ticks) > len(anims):
             return f"pass {p}: {len(ticks)} animation ticks for {len(anims)} animations (more than once per pass)"
